@@ -1051,10 +1051,17 @@ def convolve_dim(f, convolve_def):
         p2p.addVariable(f, outf, vark, data=not lconvolve)
         if lconvolve:
             axisi = list(var.dimensions).index(dimkey)
-            values = np.apply_along_axis(func1d=lambda x_: np.convolve(
-                weights, x_, mode=mode), axis=axisi, arr=var[:])
-            if isinstance(var[:], np.ma.MaskedArray):
+            vals = var[:]
+            if isinstance(vals, np.ma.MaskedArray):
+                # a masked cell does not enter the sums with the value under
+                # its mask: every sum it would enter is masked
+                values = np.ma.apply_along_axis(
+                    lambda x_: np.ma.convolve(weights, x_, mode=mode),
+                    axisi, vals)
                 values = np.ma.masked_invalid(values)
+            else:
+                values = np.apply_along_axis(func1d=lambda x_: np.convolve(
+                    weights, x_, mode=mode), axis=axisi, arr=vals)
 
             outf.variables[vark][:] = values
     return outf
